@@ -50,6 +50,67 @@ func c47SMPSeq(m *mon.M, i int64, r *rand.Rand) {
 }
 
 // ---------------------------------------------------------------------------
+// smp-degenerate: one side's SMP exponents are zero (its entropy source returns
+// zeros for the 16-byte reads); with UNEQUAL secrets nobody may see SMPComplete
+// ---------------------------------------------------------------------------
+
+func c47SMPDegenerate(m *mon.M, i int64, r *rand.Rand) {
+	b := encryptedPair(m, r)
+	if b.dead {
+		return
+	}
+	x, y := b.a, b.b
+	if i&1 != 0 {
+		x, y = b.b, b.a
+	}
+	degInitiator := i&2 == 0
+	count := 1 // only the first exponent (a2 resp. b2)
+	pattern := "first-exponent-zero"
+	if i&4 != 0 {
+		count = 1000
+		pattern = "all-exponents-zero"
+	}
+	deg := y
+	if degInitiator {
+		deg = x
+	}
+	who := map[bool]string{true: "initiator", false: "responder"}[degInitiator]
+	sx, sy := []byte("the real secret"), []byte("a wrong guess")
+	if degInitiator {
+		sx, sy = sy, sx // the degenerate side is the one that does not know the secret
+	}
+	if degInitiator {
+		*deg.zero = count
+	}
+	b.authenticate(x, "", sx)
+	b.pump()
+	if b.dead {
+		return
+	}
+	if countChange(y.changesSince(0), otr.SMPSecretNeeded) == 1 {
+		if !degInitiator {
+			*deg.zero = count
+		}
+		b.authenticate(y, "", sy)
+		b.pump()
+	}
+	*deg.zero = 0
+	if b.dead {
+		return
+	}
+	m.Count("smp_degenerate_runs", 1)
+	cx, cy := x.changesSince(0), y.changesSince(0)
+	complete := countChange(cx, otr.SMPComplete) + countChange(cy, otr.SMPComplete)
+	m.Distinct(fmt.Sprintf("smp-degenerate|%s|%s|complete=%v", who, pattern, complete > 0))
+	if complete > 0 {
+		m.Violation("smp-complete-on-unequal-secrets:degenerate-exponents", b.witness(map[string]any{
+			"degenerate_side": who, "pattern": pattern, "initiator": x.name,
+			"initiator_changes": fmt.Sprint(cx), "responder_changes": fmt.Sprint(cy),
+			"secret_initiator": string(sx), "secret_responder": string(sy)}))
+	}
+}
+
+// ---------------------------------------------------------------------------
 // data-mutation: every byte / base64 character of every data-message class
 // ---------------------------------------------------------------------------
 
@@ -784,4 +845,130 @@ func c47Frag18(m *mon.M, i int64, r *rand.Rand) {
 		}
 		unfragmented(b, w, "End")
 	}
+}
+
+// ---------------------------------------------------------------------------
+// smp-hostile-tlv: correctly MACed data messages carrying hostile SMP TLVs
+// (hook otr.VerifSendTLV), against an honest side in every SMP state
+// ---------------------------------------------------------------------------
+
+var smpHonestStates = []string{"idle", "secret-pending", "expect-smp2", "expect-smp3", "expect-smp4"}
+
+func otrMPI(v []byte) []byte { return append(u32b(len(v)), v...) }
+
+// hostileSMPData builds TLV payloads: [question NUL] count MPIs…
+func hostileSMPData(r *rand.Rand) ([]byte, string) {
+	var out []byte
+	name := ""
+	if r.IntN(4) == 0 {
+		out = append(out, mon.Pick(r, []string{"q\x00", "\x00", "no terminator", strings.Repeat("Q", 300) + "\x00"})...)
+		name = "q+"
+	}
+	shape := r.IntN(8)
+	cnt := mon.Pick(r, []int{0, 1, 3, 6, 8, 11, 20, 21, 1000})
+	switch shape {
+	case 0:
+		return out, name + "empty"
+	case 1:
+		return append(out, 0, 0), name + "short-count"
+	case 2:
+		out = append(out, 0xff, 0xff, 0xff, 0xff)
+		return out, name + "count=2^32-1"
+	}
+	out = append(out, u32b(cnt)...)
+	vals := [][]byte{{}, {0}, {1}, {2}, otrP.Bytes(), new(big.Int).Sub(otrP, big.NewInt(1)).Bytes(), new(big.Int).Sub(otrP, big.NewInt(2)).Bytes(), bytes.Repeat([]byte{0xff}, 400)}
+	n := cnt
+	if shape == 3 && n > 0 {
+		n-- // one MPI short
+		name += "one-short:"
+	}
+	if n > 25 {
+		n = 25
+	}
+	for k := 0; k < n; k++ {
+		switch r.IntN(3) {
+		case 0:
+			out = append(out, otrMPI(mon.Pick(r, vals))...)
+		default:
+			out = append(out, otrMPI(mon.Bytes(r, 1+r.IntN(200)))...)
+		}
+	}
+	if shape == 4 {
+		out = append(out, 0xff, 0xff, 0xff, 0xf0) // MPI length beyond the data
+		name += "mpi-overlong:"
+	}
+	if shape == 5 {
+		out = append(out, mon.Bytes(r, 1+r.IntN(5))...) // trailing garbage
+		name += "trailing:"
+	}
+	return out, fmt.Sprintf("%scount=%d", name, cnt)
+}
+
+func c47SMPHostileTLV(m *mon.M, i int64, r *rand.Rand) {
+	state := smpHonestStates[int(i)%len(smpHonestStates)]
+	b := encryptedPair(m, r)
+	if b.dead {
+		return
+	}
+	h, mal := b.a, b.b // honest side, malicious side (a real conversation: it owns the session keys)
+	sec := []byte("secret")
+	switch state {
+	case "secret-pending":
+		b.authenticate(mal, "q", sec)
+		b.pump()
+	case "expect-smp2":
+		b.authenticate(h, "", sec)
+		takeInbox(mal)
+	case "expect-smp3":
+		b.authenticate(mal, "", sec)
+		b.pump()
+		b.authenticate(h, "", sec)
+		takeInbox(mal)
+	case "expect-smp4":
+		b.authenticate(h, "", sec)
+		b.pump()
+		b.authenticate(mal, "", []byte("other"))
+		b.deliverAll(h, takeInbox(h)) // h: SMP2 -> sends SMP3, now expects SMP4
+		takeInbox(mal)
+	}
+	if b.dead {
+		return
+	}
+	mk := h.mark()
+	var names []string
+	for k := 1 + r.IntN(3); k > 0 && !b.dead; k-- {
+		typ := mon.Pick(r, []uint16{2, 3, 4, 5, 6, 7, 2, 3, 4, 5, 7, 0, 1, 8, 0xffff})
+		data, name := hostileSMPData(r)
+		if len(data) > 60000 {
+			data = data[:60000]
+		}
+		var wire [][]byte
+		pv, stack := mon.Panics(func() { wire = otr.VerifSendTLV(mal.c, typ, data) })
+		if pv != nil {
+			b.apiPanic("VerifSendTLV", pv, stack, nil) // harness-side hook: not expected
+			return
+		}
+		names = append(names, fmt.Sprintf("tlv%d:%s", typ, name))
+		b.tr("hostile TLV type %d (%s, %d bytes)", typ, name, len(data))
+		res := b.deliverAll(h, wire)
+		if b.dead {
+			return
+		}
+		m.Count("hostile_tlvs_delivered", 1)
+		for _, x := range res {
+			if len(x.out) != 0 {
+				m.Violation("hostile-tlv-delivers-plaintext", b.witness(map[string]any{"state": state, "tlvs": names}))
+				return
+			}
+		}
+		if typ == 1 {
+			break // disconnect: conversation over
+		}
+		takeInbox(mal)
+	}
+	if countChange(h.changesSince(mk), otr.SMPComplete) > 0 {
+		m.Violation("hostile-tlv-completes-smp", b.witness(map[string]any{"state": state, "tlvs": names}))
+		return
+	}
+	m.Distinct("smp-hostile-tlv|" + state + "|" + strings.Join(names, ","))
 }
